@@ -121,6 +121,17 @@ CLAIMED = {
          "Trusted: go/ssa, symgo, z3, the fixed AST shape and fixture text. Outside: removal of unused calls, other programs, "
          "input/output renames across files.",
          "DESIGN.md §4 (C19)"),
+ "C13": ("Partial (materialisation logic over a file-system model): the top-level pipeline of an MRO text is instantiated by the real compiler and runtime and its "
+         "fork's real postProcess / handleOuts / moveOutFiles / moveOutDir / moveOutArrayDir / moveOutFile / copyOutSymlink run against a model file system (files with "
+         "identities, directories, symlinks) behind os.Lstat/Stat/Readlink/Symlink/Rename/MkdirAll and EvalSymlinks. Every file-typed leaf of _outs (a file, an array of "
+         "two files, a struct member, a typed-map value) is arbitrarily null, empty, a file inside the pipestance, never written, a file outside, a relative or an "
+         "absolute symlink. Asserted: every existing output is reachable under outs/ with its identity, the rewritten _outs designates it, the reported location "
+         "still leads to it, inside files are moved not linked, missing ones become null, non-file values are untouched, no file is lost or duplicated, nothing "
+         "outside the pipestance changes.",
+         "Trusted: go/ssa, symgo, z3, the file-system model and the reference JSON decoder (both in the harness, both part of the claim). Outside: the real "
+         "file system (permissions, I/O errors, hard links, links in directory components), compile-time output-name rules, multi-fork top-level calls, directories "
+         "as outputs.",
+         "DESIGN.md §4 (C13)"),
  "C18": ("Every byte string up to the stated length (quick 4, thorough 5 bytes; formatArgs 2+1+1 / 2+2+1) is pushed "
          "symbolically through the real appendShellSafeQuote/shellSafeQuote/formatArgs and a POSIX double-quote "
          "reference de-quoter; the solver shows on every path that sh recovers the original bytes, or returns the bytes "
@@ -132,7 +143,6 @@ CLAIMED = {
 
 NOT_APPLICABLE = {
  "C07": "solver-based checking cannot reach it: acceptance is decided by a type checker walking heap-allocated ASTs of unbounded shape and by encoding/json-driven validation (reflection); fixing the program shape would reduce to enumerating concrete programs (DESIGN.md §5)",
- "C13": "about files moved on a real file system and JSON rewritten through encoding/json (reflection): neither is encodable by the SSA symbolic executor; the encodable leaf helpers do not decide the property (DESIGN.md §5)",
  "C17": "every clause is driven by encoding/json results (reflection/unsafe, outside the encoder); stubbing it would make the stub the subject; assignability alone is a finite table, i.e. enumeration (DESIGN.md §5)",
 }
 
